@@ -151,7 +151,7 @@ package key_certificate
 
 //@ contract (keyCertificate KeyCertificate) ConstructPublicKey(data []byte) (public_key types.ReceivingPublicKey, err error)
 //@   requires len(keyCertificate.CpkType) == 2
-//@   ensures @C08 public_key != nil ==> fresh(public_key.Bytes())
+//@   ensures @C08 fresh(public_key.Bytes())
 //@   ensures @C10 (err == nil) == (len(data) >= 256 && (u16(keyCertificate.CpkType) == 0 || (4 <= u16(keyCertificate.CpkType) && u16(keyCertificate.CpkType) <= 7)))
 //@   ensures @C10 @C02 err == nil ==> public_key != nil && public_key.Len() == SpecCryptoPubLen(u16(keyCertificate.CpkType)) && seqeq(public_key.Bytes(), data[:SpecCryptoPubLen(u16(keyCertificate.CpkType))])
 //@   ensures err != nil ==> public_key == nil
@@ -168,7 +168,7 @@ package key_certificate
 
 //@ contract (keyCertificate KeyCertificate) ConstructSigningPublicKey(data []byte) (signing_public_key types.SigningPublicKey, err error)
 //@   requires len(keyCertificate.SpkType) == 2
-//@   ensures @C08 signing_public_key != nil ==> fresh(signing_public_key.Bytes())
+//@   ensures @C08 fresh(signing_public_key.Bytes())
 //@   ensures @C10 (err == nil) == sigKeyOK(u16(keyCertificate.SpkType), len(data))
 //@   ensures @C10 @C02 err == nil ==> signing_public_key != nil && signing_public_key.Len() == SpecSigPubLen(u16(keyCertificate.SpkType)) && seqeq(signing_public_key.Bytes(), data[sigKeyStart(u16(keyCertificate.SpkType), len(data)):sigKeyStart(u16(keyCertificate.SpkType), len(data))+SpecSigPubLen(u16(keyCertificate.SpkType))])
 //@   ensures err != nil ==> signing_public_key == nil
